@@ -190,6 +190,7 @@ def gen_case(seed, tier):
         "lifetime": rng.choice([1.0, 3.0, 5.0, 5.0]),
         "cache": rng.choice([None, "cache", "lru", "lru"]),
         "lru_size": rng.choice([1, 2, 2, 50]),
+        "flags": rng.choice([None, None, None, 0, 0x0110]),
     }
     scripts = [[_gen_outcome(rng) for _ in range(rng.choice([1, 3, 6, 12]))] for _ in range(nserv)]
     # what a server does when its script is exhausted
@@ -231,6 +232,7 @@ class _World:
         self.trace = []
         self.t0 = VT.now
         self.consumed = []
+        self.bad_flags = []
 
     def next_outcome(self, idx):
         s = self.case["scripts"][idx]
@@ -384,6 +386,10 @@ def make_ns_class():
             q0 = request.question[0]
             w.trace.append(("q", self.idx, q0.name.to_text() + ("" if q0.rdclass == dns.rdataclass.IN else "/" + dns.rdataclass.to_text(q0.rdclass)), bool(max_size), round(VT.now - w.t0, 6), round(timeout, 6)))
             w.consumed.append(o["k"])
+            want_flags = w.case["cfg"].get("flags")
+            want_flags = 0x0100 if want_flags is None else want_flags  # (default: recursion desired)
+            if (request.flags & 0x87FF) != want_flags and not w.bad_flags:
+                w.bad_flags.append((self.idx, request.flags))
             return o, plan(o, request, timeout, bool(max_size), self.idx)
 
         def query(self, request, timeout, source, source_port, max_size=False, one_rr_per_rrset=False, ignore_trailing=False):
@@ -427,6 +433,8 @@ def _make_resolver(case, world, is_async):
     r.timeout = cfg["timeout"]
     r.lifetime = cfg["lifetime"]
     r.rotate = False
+    if cfg.get("flags") is not None:
+        r.set_flags(cfg["flags"])
     if cfg["cache"] == "cache":
         r.cache = dns.resolver.Cache()
     elif cfg["cache"] == "lru":
@@ -875,6 +883,11 @@ def direct_invariants(case, real, world_name):
             raise Violation("C16:no-termination", f"{tag}: returned after {r['end']}s with lifetime {lifetime}")
 
 
+def cfg_flags_text(case):
+    f = case["cfg"].get("flags")
+    return "the default (RD)" if f is None else f"set_flags({f:#06x})"
+
+
 def _run_a(case, res, log):
     model, probes, states = model_run(case)
     worlds = {}
@@ -883,6 +896,9 @@ def _run_a(case, res, log):
             continue
         real, world = run_world(case, is_async)
         worlds[name] = real
+        if world.bad_flags:
+            bi, bf = world.bad_flags[0]
+            raise Violation("C16:request-flags", f"[{name}] the request sent to ns{bi} carries header flags {bf:#06x}; the resolver is configured with {cfg_flags_text(case)}")
         direct_invariants(case, real, name)
         compare_with_model(case, real, model, name)
         res.sim_seconds += sum(r["end"] for r in real)
